@@ -77,6 +77,26 @@ func nearTwin(g *Gen, t string) string {
 		{"1.2.3.4", "1.2.3.5"}, {"important", "match-case"}, {"10 mail", "20 mail"}, {"alpn=h3", "alpn=h2"},
 	}
 	Shuffle(g, repl)
+	if g.Chance(1, 4) {
+		// the same rule with one letter of the PATTERN in the other case: a different rule (patterns are compared
+		// byte for byte; for regular expressions \d and \D are not the same thing)
+		end := strings.Index(t, "$")
+		if end < 0 {
+			end = len(t)
+		}
+		b := []byte(t)
+		for tries := 0; tries < 20; tries++ {
+			k := g.Intn(end)
+			switch {
+			case b[k] >= 'a' && b[k] <= 'z':
+				b[k] -= 32
+				return string(b)
+			case b[k] >= 'A' && b[k] <= 'Z':
+				b[k] += 32
+				return string(b)
+			}
+		}
+	}
 	i := strings.Index(t, "$")
 	if i < 0 {
 		return t + "$" + Pick(g, []string{"script", "important", "third-party"})
